@@ -645,3 +645,110 @@ def throw_types(P, rep, R, rule="A5", floor=30):
                               key="%s|%s|%s" % (rule, F.qn, t), witness="the input that triggers this throw")
     rep.ok(rule, "%d throw expressions, all of std::exception-derived types" % n)
     rep.floor(rule, n, floor, "throw expressions")
+
+
+# ------------------------------------------------------------------------------------------------
+def input_indexed_elements(P, rep, rule="A2.input-index"):
+    """parse-time: a member vector indexed by a number read from the file needs a dominating release-active bound check"""
+    rep.rule(rule, "while parsing, `V[k]` with k read from the input file (prm.get<unsigned int>(...)) is evaluated only after a "
+                   "release-active check V.size() > k (strict) in the same function")
+    n = 0
+    for cls in feature_classes(P):
+        for F in parse_functions(P, cls):
+            # locals initialised from prm.get<integral>("key")
+            inputs = {}
+            for x in F.walk():
+                if x.get("k") == "VarDecl" and x.get("c") and "int" in x.get("t", ""):
+                    mc = astq.member_call(P, x["c"][0], "get")
+                    if mc and mc[2] and string_lit(F, mc[2][0]) is not None:
+                        inputs[x["r"]] = (x, string_lit(F, mc[2][0]))
+            if not inputs:
+                continue
+            guards = {}
+            for node, c in assert_conditions(F, "WBAssertThrow"):
+                if c is None:
+                    continue
+                for cj in conjuncts(c):
+                    cj = sc(cj)
+                    if cj.get("k") != "BinaryOperator":
+                        continue
+                    a, b, op = sc(cj["c"][0]), sc(cj["c"][1]), cj["op"]
+                    sa, sb = size_of(P, a), size_of(P, b)
+                    if sa and b.get("k") == "DeclRefExpr" and b["r"] in inputs:
+                        guards.setdefault((sa, b["r"]), []).append((node, op))
+                    if sb and a.get("k") == "DeclRefExpr" and a["r"] in inputs:
+                        guards.setdefault((sb, a["r"]), []).append((node, {"<": ">", "<=": ">=", ">": "<", ">=": "<="}.get(op, op)))
+            seen = set()
+            for x in F.walk():
+                s = astq.subscript(x)
+                if not s:
+                    continue
+                v = this_vec(P, s[0])
+                i = sc(s[1])
+                if not v or i.get("k") != "DeclRefExpr" or i["r"] not in inputs:
+                    continue
+                if (v, i["r"]) in seen:
+                    continue
+                seen.add((v, i["r"]))
+                n += 1
+                vn, kn = P.d(v).get("n"), P.d(i["r"]).get("n")
+                gl = guards.get((v, i["r"]), [])
+                strict = [g for g, op in gl if op == ">"]
+                # the guard must come before the first use (dominate it)
+                ok = False
+                for g in strict:
+                    bg, bx = F.block_of(g["c"][0]), F.block_of(x)
+                    if bg is not None and bx is not None and bg in F.dominators().get(bx, set()) and (bg != bx or g["i"] < x["i"]):
+                        ok = True
+                if ok:
+                    rep.ok(rule, "%s: %s[%s] guarded by WBAssertThrow(%s.size() > %s)" % (F.qn, vn, kn, vn, kn), F.nloc(x), F.qn)
+                else:
+                    weak = [op for g, op in gl]
+                    rep.violation(rule, "%s: %s[%s] with %s read from \"%s\"" % (F.qn, vn, kn, kn, inputs[i["r"]][1]), F.nloc(x), F.qn, norm.render(P, x)[:80],
+                                  "no dominating release-active check %s.size() > %s%s" % (vn, kn, (" (only `%s`)" % weak[0]) if weak else ""),
+                                  key="%s|%s|%s" % (rule, cls, vn), witness="file whose \"%s\" equals the number of elements" % inputs[i["r"]][1])
+    rep.floor(rule, n, 2, "member vectors indexed by a number read from the file")
+
+
+def schema_required(P, rep, rule="SCHEMA.required"):
+    """Types::Object::write_schema accumulates `required`: index 0 is written only when the array does not exist yet"""
+    rep.rule(rule, "Types::Object::write_schema adds its required keys to the schema's `required` array without discarding entries "
+                   "written earlier (e.g. the \"model\" key of a plugin): a write at \"/required/0\" happens only under the test that "
+                   "\"/required\" does not exist; every other write appends (\"/required/-\")")
+    F = P.func("WorldBuilder::Types::Object::write_schema")
+    writes = []
+    for n in F.walk():
+        if n.get("k") == "CXXMemberCallExpr" and n["c"][0].get("n") in ("Set", "Create"):
+            lits = [x.get("v") for x in F.walk(n["c"][0]) if x.get("k") == "StringLiteral"]
+            for l in lits:
+                if l and l.startswith("/required"):
+                    writes.append((n, l))
+    if not writes:
+        rep.unknown(rule, "no write to /required found in Object::write_schema")
+        return
+    bad = False
+    for n, l in writes:
+        if l == "/required/-":
+            continue
+        if l == "/required/0":
+            guarded = False
+            for a in F.ancestors(n):
+                if a.get("k") == "IfStmt" and any(y is n for y in F.walk(a["c"][1])):
+                    for cj in conjuncts(a["c"][0]):
+                        cj = sc(cj)
+                        if cj is not None and cj.get("k") == "BinaryOperator" and cj.get("op") == "==":
+                            txt = norm.render(P, cj)
+                            if '"/required"' in txt and "Get(" in txt and ("nullptr" in txt or "CXXNullPtrLiteralExpr" in txt):
+                                guarded = True
+            if not guarded:
+                bad = True
+                rep.violation(rule, "write at \"/required/0\" is not conditional on the array being absent", F.nloc(n), F.qn, norm.render(P, n)[:100],
+                              "required keys declared earlier for the same object (the plugin's \"model\" key) are overwritten: a model "
+                              "object without \"model\" passes the schema", key=rule + "|overwrite",
+                              witness="{\"compositions\":[0],\"fractions\":[1.0]} as a composition model (no \"model\" key)")
+        else:
+            bad = True
+            rep.violation(rule, "write at fixed position %s of the required array" % l, F.nloc(n), F.qn, norm.render(P, n)[:100], "entries may be overwritten",
+                          key=rule + "|fixed|" + l)
+    if not bad:
+        rep.ok(rule, "Object::write_schema: %d writes to /required, index 0 only when the array is absent, otherwise append" % len(writes), F.loc, F.qn)
